@@ -158,6 +158,14 @@ def gen_objlib(rng):
         quarks.append({'enum': nm, 'func': 'foo_%s_quark' % uscore(nm[3:]), 'domain': 'foo-%s-quark' % uscore(nm[3:]).replace('_', '-'),
                        'has_enum': rng.random() < 0.8, 'members': [('FOO_%s_FAILED' % uscore(nm[3:]).upper(), 0), ('FOO_%s_OTHER' % uscore(nm[3:]).upper(), 1)]})
         own.append(nm)
+    # an error enumeration whose name starts with an acronym (FooDBusError <-> foo_dbus_error_quark): chosen from the model, not
+    # from the random stream
+    acr = [('FooDBusError', 'foo_dbus_error_quark', 'DBUS_ERROR'), ('FooIOError', 'foo_io_error_quark', 'IO_ERROR'),
+           ('FooTLSError', 'foo_tls_error_quark', 'TLS_ERROR'), None][(len(classes) + len(ifaces) + len(boxed)) % 4]
+    if acr:
+        quarks.append({'enum': acr[0], 'func': acr[1], 'domain': acr[1][:-6].replace('_', '-') + '-quark', 'has_enum': True,
+                       'members': [('FOO_%s_FAILED' % acr[2], 0), ('FOO_%s_OTHER' % acr[2], 1)]})
+        own.append(acr[0])
     for c in classes:
         for sg in c['signals']:
             if rng.random() < 0.5 and sg['return'] in GTYPE_TO_C and all(t in GTYPE_TO_C for t in sg['params']):
